@@ -169,6 +169,9 @@ def run(ctx):
     n = int((40 if ctx.tier == "quick" else 800) * ctx.budget)
     scns = [ctx.rng.choice([scen.gen_mixed, scen.gen_push, scen.gen_handshake, scen.gen_short_writes, scen.gen_fail])(ctx.rng) for _ in range(n)]
     sesscheck.check_scenarios(ctx, scns, (oracles.o_c02,), "api-streams")
+    # concurrent senders: header and payload of one message must not be separated by another thread's/task's message
+    from units import conc
+    conc.conc_sessions(ctx, int((20 if ctx.tier == "quick" else 300) * ctx.budget))
 
 
 def search(ctx, disagreements, proofs):
